@@ -126,4 +126,13 @@ MUTANTS = [
     ("typevar-bound-ignored", ["C15"], A, "            else:\n                array_type = bound", "            else:\n                array_type = Any"),
     ("union-first-only", ["C15"], A, "            out = [_make_array(x, dim_str, cls) for x in get_args(array_type)]", "            out = [_make_array(x, dim_str, cls) for x in get_args(array_type)[:1]]"),
     ("nest-both-variadic-allowed", ["C15"], A, '                raise ValueError(\n                    "Cannot use variadic specifiers (`*name` or `...`) "\n                    "in both the original array and the extended array"\n                )', "                pass"),
+    ("hook-func-decorator-first", ["C10"], I, "        node.decorator_list.append(decorator)", "        node.decorator_list.insert(0, decorator)"),
+    ("hook-class-decorator-last", ["C10"], I, "        node.decorator_list.insert(0, decorator)\n        self._parents.append(node)", "        node.decorator_list.append(decorator)\n        self._parents.append(node)"),
+    ("hook-func-no-copy-location", ["C10"], I, "        decorator = self._typechecker.get_ast()\n        ast.copy_location(decorator, node)\n        # Place at the end", "        decorator = self._typechecker.get_ast()\n        # Place at the end"),
+    ("hook-import-first", ["C10"], I, "                node.body.insert(i, ast.Import(names=[ast.alias(\"jaxtyping\", None)]))", "                node.body.insert(0, ast.Import(names=[ast.alias(\"jaxtyping\", None)]))"),
+    ("hook-import-after-docstring-only", ["C10"], I, "            if isinstance(child, ast.ImportFrom) and child.module == \"__future__\":\n                continue\n            elif", "            if False:\n                continue\n            elif"),
+    ("hook-async-decorated", ["C10"], I, "    def visit_FunctionDef(self, node: ast.FunctionDef):", "    def visit_AsyncFunctionDef(self, node):\n        return self.visit_FunctionDef(node)\n\n    def visit_FunctionDef(self, node: ast.FunctionDef):"),
+    ("hook-nested-defs-skipped", ["C10"], I, "        node.decorator_list.append(decorator)\n\n        self._parents.append(node)\n        self.generic_visit(node)", "        node.decorator_list.append(decorator)\n\n        self._parents.append(node)"),
+    ("hook-class-body-skipped", ["C10"], I, "        node.decorator_list.insert(0, decorator)\n        self._parents.append(node)\n        self.generic_visit(node)", "        node.decorator_list.insert(0, decorator)\n        self._parents.append(node)"),
+    # (hook-compile-inherits-flags: covered by seeded change C10-m1)
 ]
